@@ -84,7 +84,11 @@ func msgOf(data []byte, nonce uint64) []byte {
 func checkMine(c mineCase) (h.Info, error) {
 	ell := uint64(len(c.Data) + 8)
 	lx := new(big.Int).Mul(new(big.Int).SetUint64(ell), new(big.Int).SetUint64(c.Target))
-	if !lx.IsUint64() || lx.Cmp(ref.Pow3(10)) > 0 {
+	budget := ref.Pow3(10)
+	if len(c.Data) > 60000 && c.Workers > 1 { // huge data: len alone exceeds 3^10; soundness only (no scan of skipped blocks)
+		budget = big.NewInt(1 << 18)
+	}
+	if !lx.IsUint64() || lx.Cmp(budget) > 0 {
 		return h.Info{}, fmt.Errorf("PRECONDITION: len*target = %s outside the harness budget", lx)
 	}
 	ctx, cancel := context.WithTimeout(context.Background(), 120*time.Second)
@@ -162,25 +166,28 @@ type cancelCase struct {
 	Workers int    `json:"workers"`
 	Target  uint64 `json:"target"`
 	DelayUs int    `json:"delay_us"` // -1 = cancelled before the call
+	// Mode: how the context ends: "" cancel(), "deadline" (context.WithTimeout, Err() = DeadlineExceeded),
+	// "cause" (WithCancelCause), "custom" (a Context of the harness whose Err() is its own error value)
+	Mode string `json:"mode,omitempty"`
 }
 
 func TestMineCancelled(t *testing.T) {
 	h.Run(t, h.Sub[cancelCase]{
 		Prop: "C12", Name: "mine-cancelled", N: 160,
 		Gen: func(t *rapid.T) cancelCase {
-			c := cancelCase{Data: h.Bytes(t, "data", 0, 40), Workers: h.OneOf(t, "workers", 1, 2, 4, 8), DelayUs: rapid.IntRange(-1, 3000).Draw(t, "delay")}
+			c := cancelCase{Data: h.Bytes(t, "data", 0, 40), Workers: h.OneOf(t, "workers", 1, 2, 4, 8), DelayUs: rapid.IntRange(-1, 3000).Draw(t, "delay"), Mode: h.OneOf(t, "ctxmode", "", "", "deadline", "deadline", "cause", "custom")}
 			ell := uint64(len(c.Data) + 8)
 			c.Target = rapid.Uint64Range(1<<30, ^uint64(0)/ell-1).Draw(t, "target")
 			return c
 		},
 		Check: func(c cancelCase) (h.Info, error) {
-			ctx, cancel := context.WithCancel(context.Background())
+			ctx, end, release := h.ContextFor(c.Mode, c.DelayUs)
 			if c.DelayUs < 0 {
-				cancel()
+				end()
 			} else {
-				go func() { time.Sleep(time.Duration(c.DelayUs) * time.Microsecond); cancel() }()
+				go func() { time.Sleep(time.Duration(c.DelayUs) * time.Microsecond); end() }()
 			}
-			defer cancel()
+			defer release()
 			w, ok := workers[c.Workers]
 			if !ok {
 				w = powv2.New(c.Workers)
@@ -198,7 +205,7 @@ func TestMineCancelled(t *testing.T) {
 			return info, nil
 		},
 		Require: []string{"cancelled/error"},
-		Rule:    "targets >= 2^30 (not found within milliseconds) with the context cancelled before the call or after 0..3 ms: a nonce returned without error must still satisfy Score >= target (an error is fine); all non-trivial; distinct by case",
+		Rule:    "targets >= 2^30 (not found within milliseconds) with the context ended before the call or after 0..3 ms (by cancel, by its deadline, with a cause, or a Context type of the caller whose Err() is its own error): a nonce returned without error must still satisfy Score >= target (an error is fine); all non-trivial; distinct by case",
 	})
 }
 
@@ -270,6 +277,12 @@ func genMine(t *rapid.T) mineCase {
 	c := mineCase{Data: h.Bytes(t, "data", 0, 64), Workers: 1}
 	if h.Pick(t, "dlong", 10, 1) == 1 {
 		c.Data = h.BytesN(t, "datalong", h.OneOf(t, "dll", 120, 128, 129, 1000))
+	}
+	if h.Pick(t, "dhuge", 60, 1) == 1 { // around and at multiples of 64 KiB (chunked hashing of the data)
+		c.Data = h.BytesN(t, "datahuge", h.OneOf(t, "dhl", 65535, 65536, 65537, 131072, 131073))
+		c.Workers = 2
+		c.Target, c.Class = 1, "huge-data"
+		return c
 	}
 	if h.Pick(t, "wk", 3, 1) == 1 {
 		c.Workers = h.OneOf(t, "workers", 2, 3, 4, 8, 16)
